@@ -21,6 +21,20 @@ def run_schedule(mkview, sched):
             except Exception as e:   # noqa
                 its.append(None)
                 trace.append('CRASH:' + type(e).__name__)
+        elif op[0] == 'd':
+            # abandon: the iterator is released (its generator is closed)
+            i = int(op[1:])
+            if i < len(its) and its[i] is not None:
+                it = its[i]
+                its[i] = None
+                try:
+                    if hasattr(it, 'close'):
+                        it.close()
+                except Exception as e:   # noqa
+                    trace.append('CRASH:' + type(e).__name__)
+                    continue
+                del it
+            trace.append('.')
         else:
             i = int(op[1:])
             if i >= len(its) or its[i] is None:
@@ -43,9 +57,14 @@ def spec_trace(solo, sched):
         if op == 'n':
             pos.append(0)
             out.append('.')
+        elif op[0] == 'd':
+            i = int(op[1:])
+            if i < len(pos):
+                pos[i] = None
+            out.append('.')
         else:
             i = int(op[1:])
-            if i >= len(pos):
+            if i >= len(pos) or pos[i] is None:
                 out.append('BAD')
             elif pos[i] < len(solo):
                 out.append(solo[pos[i]])
@@ -76,6 +95,10 @@ def schedules(rng, nrows, thorough, how_many=None):
                 ops.append('x%d' % rng.randrange(created))
         extra.append(ops)
     scheds += extra
+    # an iterator released (closed) after j steps, then a later iterator advanced
+    for j in range(0, full + 1):
+        scheds.append(['n'] + ['x0'] * j + ['d0'])
+        scheds.append(['n', 'n'] + ['x0'] * j + ['d0'] + ['x1'] * full)
     # an iterator created (and possibly started) early, another exhausted, a third created afterwards
     for j in range(0, full + 1):
         for n in range(0, 4):
@@ -157,7 +180,7 @@ def run(ctx):
                                   'an iterator over %s does not yield the rows of a solo pass under this schedule' % name,
                                   {'view': name, 'source_rows': r, 'schedule': ' '.join(sched), 'first_bad_op': bad,
                                    'got': trace[bad], 'want': want[bad], 'trace': trace})
-                if mach is not None and mach[0] == 'cache':
+                if mach is not None and mach[0] == 'cache' and not any(o[0] == 'd' for o in sched):
                     mach_lines.append('mach cache 1 %s %s %s' % (proto.enc_opt(mach[1]), proto.enc_table([tuple(x) for x in mach[2]]),
                                                                  proto.enc_list(sched)))
                     mach_meta.append((name, sched, trace, len(view.cache), view.cachecomplete))
